@@ -395,6 +395,53 @@ def part_comparator(ctx, eng, NCH):
 
 # ----------------------------------------------------------------------------- native
 
+def universe():
+    """identifiers built from small chunks (maximal chunking respected)"""
+    nums = ['0', '1', '01', '001', '9', '10', '09', '00']
+    strs = ['a', 'B', 'ab', 'Z']
+    chunks = [('U', '_')] + [('N', n) for n in nums] + [('S', s_) for s_ in strs]
+    out = set()
+    for k in (1, 2, 3):
+        for combo in _it.product(chunks, repeat=k):
+            if any(combo[i][0] == combo[i + 1][0] and combo[i][0] != 'U' for i in range(k - 1)):
+                continue
+            out.add(''.join(c[1] for c in combo))
+    return sorted(out)
+
+
+def matrix_findings():
+    """the real version_sort on every pair / triple of a bounded universe of identifiers (native oracle, numpy)"""
+    import numpy as np
+    ids = universe()
+    rp = Replayer()
+    try:
+        m = rp.call({'op': 'version_sort_matrix', 'idents': ids})['matrix']
+    finally:
+        rp.close()
+    n = len(ids)
+    M = np.frombuffer(m.encode(), dtype='S1').reshape(n, n)
+    lt, eq, gt = (M == b'<'), (M == b'='), (M == b'>')
+    found = []
+    anti = np.argwhere(~((lt == gt.T) & (eq == eq.T)))
+    if len(anti):
+        i, j = anti[0]
+        found.append('not antisymmetric: cmp(%r,%r)=%s but cmp(%r,%r)=%s' % (ids[i], ids[j], M[i, j].decode(), ids[j], ids[i], M[j, i].decode()))
+    ties = np.argwhere(eq & ~np.eye(n, dtype=bool))
+    if len(ties):
+        i, j = ties[0]
+        found.append('different names tie: %r and %r (%d such pairs)' % (ids[i], ids[j], len(ties)))
+    if not np.all(np.diag(eq)):
+        found.append('not reflexive')
+    le = (lt | eq).astype(np.float32)
+    two = (le @ le) > 0
+    bad = np.argwhere(two & gt)
+    if len(bad):
+        i, k = bad[0]
+        j = int(np.argmax(le[i] * le[:, k]))
+        found.append('not transitive: %r <= %r <= %r but %r > %r' % (ids[i], ids[j], ids[k], ids[i], ids[k]))
+    return found, n
+
+
 def native_findings():
     """real version_sort through the CLI: permutations of import lists under --style-edition 2024"""
     bins = ensure_bins()
@@ -416,6 +463,9 @@ def native_findings():
         outs = {fmt(list(p)) for p in _it.permutations(g)}
         if len(outs) != 1:
             found.setdefault('other', []).append('permutations of %r format to %d different texts' % (g, len(outs)))
+    mf, n_ids = matrix_findings()
+    if mf:
+        found.setdefault('other', []).extend(mf)
     outs = {fmt(list(p)) for p in _it.permutations(big)}
     if len(outs) != 1:
         found.setdefault('C11/version_sort/numeric-chunk>=2^64-ends-the-chunk-iterator', []).append('permutations of %r format differently' % (big,))
